@@ -103,6 +103,10 @@ SEED_EXPECT={
  "C01-4":"R-COVER/present","C02-4":"R-CONST/topicname","C03-4":"R-FLOW/verbatim","C04-4":"R-FLOW/attr","C05-4":"R-COVER/present",
  "C06-4":"R-PANIC/P2","C07-4":"R-FLOW/attr","C08-4":"R-WIRE/W5","C10-4":"R-LOCK/L2","C11-4":"R-TERM/T-loop","C12-4":"R-SYM/S7",
  "C13-4":"R-PROV/V6","C14-4":"R-DET/N1","C15-4":"R-SYM/S5x","C17-4":"R-CONST/entity","C18-4":"R-PANIC/P4c","C20-4":"R-PURE",
+ "C01-5":"R-ERR/E4","C02-5":"R-FLOW/memokey","C03-5":"R-FLOW/kinds","C04-5":"R-PROV/required","C05-5":"R-DET/located",
+ "C06-5":"R-FLOW/memokey","C07-5":"R-PROV/entityname","C08-5":"R-WIRE/W2","C09-5":"R-WHO/fmttext","C10-5":"R-LOCK/pool",
+ "C11-5":"R-POS/lexer","C12-5":"R-SYM/S10","C13-5":"R-PROV/V7","C14-5":"R-DET/N3s","C15-5":"R-SYM/S5x",
+ "C16-5":"R-SYM/verbbody","C17-5":"R-FLOW/pathseg","C18-5":"R-TERM/T2","C19-5":"R-WHO/fmttext","C20-5":"R-FLOW/align",
 }
 # seeds kept on record that no rule is meant to see (see DESIGN.md §10.4): not part of the self-test
 UNCOVERED={"C09-4","C16-4","C19-4"}
